@@ -427,4 +427,172 @@ theorem anyStep_or {S R : Type} (step : Nat → Op σ → S → S × R) (p q : N
     simp only [anyStep, ih]
     cases p (now + d) op s <;> cases q (now + d) op s <;> simp
 
+/-! ### well-formed tables (one entry per id) and counting -/
+
+/-- `HashMap` / `PRIMARY KEY`: at most one entry per id. -/
+def WF (t : Tbl σ) : Prop := (keys t).Nodup
+
+theorem wf_nil : WF ([] : Tbl σ) := List.nodup_nil
+
+theorem wf_filter {t : Tbl σ} (wf : WF t) (q : Nat × Rec σ → Bool) : WF (t.filter q) := by
+  unfold WF keys at *
+  exact List.Nodup.sublist (List.Sublist.map _ List.filter_sublist) wf
+
+theorem wf_erase {t : Tbl σ} (wf : WF t) (i : Nat) : WF (erase t i) := wf_filter wf _
+theorem wf_eraseAll {t : Tbl σ} (wf : WF t) (ids : List Nat) : WF (eraseAll t ids) := wf_filter wf _
+
+theorem wf_put {t : Tbl σ} (wf : WF t) (i : Nat) (r : Rec σ) : WF (put t i r) := by
+  unfold put
+  have h1 : i ∉ keys (erase t i) := by
+    rw [← get_isSome_iff_mem_keys, get_erase]; simp
+  have h2 := wf_erase wf i
+  unfold WF keys at *
+  exact List.nodup_cons.mpr ⟨h1, h2⟩
+
+theorem memDelete_wf {t : Tbl σ} (wf : WF t) (now i : Nat) : WF (memDelete t now i).1 := by
+  unfold memDelete
+  split
+  · exact wf
+  · exact wf_erase wf _
+
+theorem memStep_wf {t : Tbl σ} (wf : WF t) (now : Nat) (op : Op σ) : WF (memStep now op t).1 := by
+  cases op with
+  | create i st ttl => simp only [memStep]; split <;> first | exact wf | exact wf_put wf _ _
+  | update i st ttl => simp only [memStep]; split <;> first | exact wf | exact wf_put wf _ _
+  | updateTtl i ttl => simp only [memStep]; split <;> first | exact wf | exact wf_put wf _ _
+  | load i => simp only [memStep]; split <;> exact wf
+  | delete i =>
+    have := memDelete_wf wf now i
+    simp only [memStep]
+    split <;> (rename_i heq; rw [heq] at this; exact this)
+  | changeId o n =>
+    have := memDelete_wf wf now o
+    simp only [memStep]
+    split
+    · exact wf
+    · split
+      · exact wf
+      · split <;> (rename_i heq; rw [heq] at this; first | exact wf_put this _ _ | exact this)
+  | deleteExpired batch ord => exact wf_eraseAll wf _
+
+theorem sqlStep_wf {t : Tbl σ} (wf : WF t) (now : Nat) (op : Op σ) : WF (sqlStep now op t).1 := by
+  cases op with
+  | create i st ttl =>
+    simp only [sqlStep]
+    split
+    · exact wf_put wf _ _
+    · split <;> first | exact wf | exact wf_put wf _ _
+  | update i st ttl => simp only [sqlStep]; split <;> first | exact wf | exact wf_put wf _ _
+  | updateTtl i ttl => simp only [sqlStep]; split <;> first | exact wf | exact wf_put wf _ _
+  | load i => simp only [sqlStep]; split <;> exact wf
+  | delete i => simp only [sqlStep]; split <;> first | exact wf | exact wf_erase wf _
+  | changeId o n =>
+    simp only [sqlStep]
+    split
+    · exact wf
+    · split
+      · exact wf
+      · split <;> first | exact wf | exact wf_put (wf_erase wf _) _ _
+  | deleteExpired batch ord => exact wf_eraseAll wf _
+
+theorem mem_dedup (l : List Nat) (x : Nat) : x ∈ dedup l ↔ x ∈ l := by
+  induction l with
+  | nil => simp [dedup]
+  | cons y l ih =>
+    simp only [dedup, List.mem_cons, List.mem_filter, ih]
+    constructor
+    · rintro (h | ⟨h, _⟩)
+      · exact Or.inl h
+      · exact Or.inr h
+    · rintro (h | h)
+      · exact Or.inl h
+      · by_cases hx : x = y
+        · exact Or.inl hx
+        · exact Or.inr ⟨h, by simpa using hx⟩
+
+theorem nodup_dedup (l : List Nat) : (dedup l).Nodup := by
+  induction l with
+  | nil => exact List.nodup_nil
+  | cons y l ih =>
+    simp only [dedup]
+    refine List.nodup_cons.mpr ⟨?_, List.Nodup.sublist List.filter_sublist ih⟩
+    simp [List.mem_filter]
+
+theorem nodup_iterOrder (t : Tbl σ) (ord : List Nat) : (iterOrder t ord).Nodup := by
+  unfold iterOrder
+  refine List.nodup_append.mpr ⟨List.Nodup.sublist List.filter_sublist (nodup_dedup _),
+    List.Nodup.sublist List.filter_sublist (nodup_dedup _), ?_⟩
+  intro a ha b hb hab
+  subst hab
+  have h1 := (mem_dedup ord a).mp (List.mem_filter.mp ha).1
+  have h2 := (List.mem_filter.mp hb).2
+  simp [h1] at h2
+
+theorem mem_iterOrder (t : Tbl σ) (ord : List Nat) (i : Nat) : i ∈ iterOrder t ord ↔ i ∈ keys t := by
+  unfold iterOrder
+  simp only [List.mem_append, List.mem_filter, mem_dedup, get_isSome_iff_mem_keys]
+  constructor
+  · rintro (⟨_, h⟩ | ⟨h, _⟩) <;> exact h
+  · intro h
+    by_cases ho : i ∈ ord
+    · exact Or.inl ⟨ho, h⟩
+    · exact Or.inr ⟨h, by simpa using ho⟩
+
+/-- Removing `ids` (distinct, all present) from a well-formed table shrinks it by `ids.length`. -/
+theorem length_eraseAll (t : Tbl σ) : ∀ (ids : List Nat), WF t → ids.Nodup → (∀ i ∈ ids, i ∈ keys t) →
+    (eraseAll t ids).length + ids.length = t.length := by
+  induction t with
+  | nil =>
+    intro ids _ _ sub
+    cases ids with
+    | nil => rfl
+    | cons i ids => have := sub i (List.mem_cons_self ..); simp [keys] at this
+  | cons p t ih =>
+    obtain ⟨k, r⟩ := p
+    intro ids wf nd sub
+    have wf' : WF t := by unfold WF keys at *; exact (List.nodup_cons.mp wf).2
+    have hk : k ∉ keys t := by unfold WF keys at *; exact (List.nodup_cons.mp wf).1
+    by_cases hki : k ∈ ids
+    · have e1 : eraseAll ((k, r) :: t) ids = eraseAll t (ids.erase k) := by
+        unfold eraseAll
+        have : (!ids.contains k) = false := by simp [hki]
+        simp only [List.filter_cons, this, Bool.false_eq_true, if_false]
+        apply List.filter_congr
+        intro q hq
+        have hqk : q.1 ≠ k := by
+          intro h; apply hk; unfold keys; exact List.mem_map.mpr ⟨q, hq, h⟩
+        have : q.1 ∈ ids.erase k ↔ q.1 ∈ ids := by
+          rw [List.Nodup.mem_erase_iff nd]; simp [hqk]
+        by_cases hm : q.1 ∈ ids <;> simp [hm, this]
+      have nd' : (ids.erase k).Nodup := List.Nodup.erase k nd
+      have sub' : ∀ i ∈ ids.erase k, i ∈ keys t := by
+        intro i hi
+        rw [List.Nodup.mem_erase_iff nd] at hi
+        have := sub i hi.2
+        simp only [keys, List.map_cons, List.mem_cons] at this
+        rcases this with h | h
+        · exact absurd h hi.1
+        · exact h
+      have := ih (ids.erase k) wf' nd' sub'
+      rw [e1]
+      have hl : (ids.erase k).length = ids.length - 1 := List.length_erase_of_mem hki
+      have hpos : 0 < ids.length := List.length_pos_of_mem hki
+      simp only [List.length_cons]
+      omega
+    · have e1 : eraseAll ((k, r) :: t) ids = (k, r) :: eraseAll t ids := by
+        unfold eraseAll
+        have : (!ids.contains k) = true := by simp [hki]
+        simp only [List.filter_cons, this, if_true]
+      have sub' : ∀ i ∈ ids, i ∈ keys t := by
+        intro i hi
+        have := sub i hi
+        simp only [keys, List.map_cons, List.mem_cons] at this
+        rcases this with h | h
+        · subst h; exact absurd hi hki
+        · exact h
+      have := ih ids wf' nd sub'
+      rw [e1]
+      simp only [List.length_cons]
+      omega
+
 end Pxv.Store
